@@ -268,3 +268,231 @@ Theorem C15_src_fail_clearFailedAllocs_spec :
   length h' = length h /\ (forall b' : nat, b' <> bt -> hblock h' b' = hblock h b').
 Proof. exact src_fail_clearFailedAllocs_spec. Qed.
 Print Assumptions C15_src_fail_clearFailedAllocs_spec.
+
+(* --------------------------------------------------------------------------------------------------------------
+   THE TRANSLATED SOURCE of the C allocation wrappers of TestHarness_c.cpp (gen/Gen_LoopC15.v, regenerated by tools/cxx2gal.py on every run): the countdown, malloc, strlen, strdup / strndup and calloc do what the textbook says, for every oracle answer of the allocation behind them
+   -------------------------------------------------------------------------------------------------------------- *)
+From CppUVerif Require Import lib.CSem lib.CMem lib.CMemOps gen.Gen_LoopC15 C15_CTie.
+Local Open Scope Z_scope.
+Theorem C15_countdown_spec :
+  forall (fuel : nat) (mem : memory) (c mc : Z) (evs : list hcev) (blocks : list (option (list N))),
+  c < I31 -> src_c_countdown fuel mem c mc evs blocks = FOk (tt, mem, t_tick c, mc, evs ++ t_tick_evs c, blocks).
+Proof. exact countdown_spec. Qed.
+Print Assumptions C15_countdown_spec.
+
+Theorem C15_set_countdown_spec :
+  forall (fuel : nat) (mem : memory) (c mc : Z) (evs : list hcev) (blocks : list (option (list N))) (n : Z),
+  src_c_cpputest_malloc_set_out_of_memory_countdown fuel mem c mc evs blocks n =
+  FOk (tt, mem, n, mc, evs ++ (if n =? 0 then [COutOfMemoryOn] else []), blocks).
+Proof. exact set_countdown_spec. Qed.
+Print Assumptions C15_set_countdown_spec.
+
+Theorem C15_mallocs_spec :
+  forall (fuel : nat) (file : ptr) (line : Z) (reqs : list req) (mem : memory) (c mc : Z)
+  (evs : list hcev) (rest : list (option (list N))),
+  c < I31 ->
+  Forall wf_req reqs ->
+  src_mallocs fuel mem c mc evs (map snd reqs ++ rest) (map fst reqs) file line =
+  FOk
+  (t_ptrs mem (map snd reqs), t_mems mem (map snd reqs), t_ticks c (length reqs),
+  t_count mc (length reqs), evs ++ t_trace c reqs, rest).
+Proof. exact mallocs_spec. Qed.
+Print Assumptions C15_mallocs_spec.
+
+Theorem C15_countdown_n_allocations :
+  forall (fuel : nat) (mem : memory) (c0 mc : Z) (evs : list hcev) (reqs : list req)
+  (rest : list (option (list N))) (n : Z) (file : ptr) (line : Z),
+  1 <= n < I31 ->
+  Forall wf_req reqs ->
+  src_countdown_then_mallocs fuel mem c0 mc evs (map snd reqs ++ rest) n (map fst reqs) file line =
+  FOk
+  (t_ptrs mem (map snd reqs), t_mems mem (map snd reqs), Z.max 0 (n - Z.of_nat (length reqs)),
+  t_count mc (length reqs),
+  evs ++
+  map cm (firstn (Z.to_nat n - 1) reqs) ++
+  match skipn (Z.to_nat n - 1) reqs with
+  | [] => []
+  | r :: more => COutOfMemoryOn :: cm r :: map cm more
+  end, rest).
+Proof. exact countdown_n_allocations. Qed.
+Print Assumptions C15_countdown_n_allocations.
+
+Theorem C15_countdown_zero_at_once :
+  forall (fuel : nat) (mem : memory) (c0 mc : Z) (evs : list hcev) (reqs : list req)
+  (rest : list (option (list N))) (file : ptr) (line : Z),
+  Forall wf_req reqs ->
+  src_countdown_then_mallocs fuel mem c0 mc evs (map snd reqs ++ rest) 0 (map fst reqs) file line =
+  FOk
+  (t_ptrs mem (map snd reqs), t_mems mem (map snd reqs), 0, t_count mc (length reqs),
+  evs ++ COutOfMemoryOn :: map cm reqs, rest).
+Proof. exact countdown_zero_at_once. Qed.
+Print Assumptions C15_countdown_zero_at_once.
+
+Theorem C15_countdown_negative_never :
+  forall (fuel : nat) (mem : memory) (c0 mc : Z) (evs : list hcev) (reqs : list req)
+  (rest : list (option (list N))) (n : Z) (file : ptr) (line : Z),
+  n <= -1 ->
+  Forall wf_req reqs ->
+  src_countdown_then_mallocs fuel mem c0 mc evs (map snd reqs ++ rest) n (map fst reqs) file line =
+  FOk
+  (t_ptrs mem (map snd reqs), t_mems mem (map snd reqs), n, t_count mc (length reqs), evs ++ map cm reqs, rest).
+Proof. exact countdown_negative_never. Qed.
+Print Assumptions C15_countdown_negative_never.
+
+Theorem C15_malloc_location_spec :
+  forall (fuel : nat) (mem : memory) (c mc : Z) (evs : list hcev) (o : option (list N))
+  (bl : list (option (list N))) (size : Z) (file : ptr) (line : Z),
+  c < I31 ->
+  wf_ans size o ->
+  src_c_cpputest_malloc_location fuel mem c mc evs (o :: bl) size file line =
+  FOk
+  (t_ptr mem o, t_mem mem o, t_tick c, cw 32 true (mc + 1), (evs ++ t_tick_evs c) ++ [CMalloc size (t_ans o)],
+  bl).
+Proof. exact malloc_location_spec. Qed.
+Print Assumptions C15_malloc_location_spec.
+
+Theorem C15_strlen_spec :
+  forall (fuel : nat) (mem : memory) (c mc : Z) (evs : list hcev) (blocks : list (option (list N)))
+  (p : ptr) (s r : list N),
+  CMemFacts.mem_ok mem ->
+  view mem p = s ++ 0%N :: r ->
+  NN s ->
+  (length s < fuel)%nat ->
+  Z.of_nat (length s) < M64 ->
+  src_c_test_harness_c_strlen fuel mem c mc evs blocks p = FOk (Z.of_nat (length s), mem, c, mc, evs, blocks).
+Proof. exact strlen_spec. Qed.
+Print Assumptions C15_strlen_spec.
+
+Theorem C15_strlen_unterminated_oob :
+  forall (fuel : nat) (mem : memory) (c mc : Z) (evs : list hcev) (blocks : list (option (list N))) (p : ptr),
+  CMemFacts.mem_ok mem ->
+  NN (view mem p) ->
+  (length (view mem p) < fuel)%nat -> src_c_test_harness_c_strlen fuel mem c mc evs blocks p = FOob.
+Proof. exact strlen_unterminated_oob. Qed.
+Print Assumptions C15_strlen_unterminated_oob.
+
+Theorem C15_strdup_refused :
+  forall (fuel : nat) (mem : memory) (c mc : Z) (evs : list hcev) (bl : list (option (list N)))
+  (p : ptr) (s r : list N) (file : ptr) (line : Z),
+  CMemFacts.mem_ok mem ->
+  c < I31 ->
+  view mem p = s ++ 0%N :: r ->
+  NN s ->
+  (length s < fuel)%nat ->
+  Z.of_nat (length (s ++ 0%N :: r)) < M64 ->
+  src_c_cpputest_strdup_location fuel mem c mc evs (None :: bl) p file line =
+  FOk
+  (Null, mem, t_tick c, cw 32 true (mc + 1), (evs ++ t_tick_evs c) ++ [CMalloc (Z.of_nat (length s) + 1) 0],
+  bl).
+Proof. exact strdup_refused. Qed.
+Print Assumptions C15_strdup_refused.
+
+Theorem C15_strdup_copies_exactly_the_string :
+  forall (fuel : nat) (mem : memory) (c mc : Z) (evs : list hcev) (b3 : list N) (bl : list (option (list N)))
+  (p : ptr) (s r : list N) (file : ptr) (line : Z),
+  CMemFacts.mem_ok mem ->
+  c < I31 ->
+  view mem p = s ++ 0%N :: r ->
+  NN s ->
+  (length s < fuel)%nat ->
+  Z.of_nat (length (s ++ 0%N :: r)) < M64 ->
+  length b3 = S (length s) ->
+  src_c_cpputest_strdup_location fuel mem c mc evs (Some b3 :: bl) p file line =
+  FOk
+  (Ptr (length mem) 0, mem ++ [s ++ [0%N]], t_tick c, cw 32 true (mc + 1),
+  (evs ++ t_tick_evs c) ++ [CMalloc (Z.of_nat (length s) + 1) 1], bl).
+Proof. exact strdup_copies_exactly_the_string. Qed.
+Print Assumptions C15_strdup_copies_exactly_the_string.
+
+Theorem C15_strndup_spec :
+  forall (fuel : nat) (mem : memory) (c mc : Z) (evs : list hcev) (b3 : list N) (bl : list (option (list N)))
+  (p : ptr) (s r : list N) (n : Z) (file : ptr) (line : Z),
+  CMemFacts.mem_ok mem ->
+  c < I31 ->
+  view mem p = s ++ 0%N :: r ->
+  NN s ->
+  (length s < fuel)%nat ->
+  Z.of_nat (length (s ++ 0%N :: r)) < M64 ->
+  0 <= n < M64 ->
+  length b3 = S (Nat.min (length s) (Z.to_nat n)) ->
+  src_c_cpputest_strndup_location fuel mem c mc evs (Some b3 :: bl) p n file line =
+  FOk
+  (Ptr (length mem) 0, mem ++ [firstn (Nat.min (length s) (Z.to_nat n)) s ++ [0%N]],
+  t_tick c, cw 32 true (mc + 1),
+  (evs ++ t_tick_evs c) ++ [CMalloc (Z.of_nat (Nat.min (length s) (Z.to_nat n)) + 1) 1], bl).
+Proof. exact strndup_spec. Qed.
+Print Assumptions C15_strndup_spec.
+
+Theorem C15_strndup_size_no_wrap :
+  forall (s r : list N) (n : Z),
+  Z.of_nat (length (s ++ 0%N :: r)) < M64 ->
+  0 <= n < M64 ->
+  cw 64 false (Z.of_nat (Nat.min (length s) (Z.to_nat n)) + 1) = Z.of_nat (Nat.min (length s) (Z.to_nat n)) + 1 /\
+  Z.of_nat (Nat.min (length s) (Z.to_nat n)) + 1 <= Z.of_nat (length (s ++ 0%N :: r)).
+Proof. exact strndup_size_no_wrap. Qed.
+Print Assumptions C15_strndup_size_no_wrap.
+
+Theorem C15_calloc_overflows_iff :
+  forall num size : Z, 0 <= num -> 0 <= size -> t_calloc_overflows num size = true <-> M64 <= num * size.
+Proof. exact calloc_overflows_iff. Qed.
+Print Assumptions C15_calloc_overflows_iff.
+
+Theorem C15_calloc_overflow_refused :
+  forall (fuel : nat) (mem : memory) (c mc : Z) (evs : list hcev) (blocks : list (option (list N)))
+  (num size : Z) (file : ptr) (line : Z),
+  0 <= num ->
+  0 <= size < M64 ->
+  M64 <= num * size ->
+  src_c_cpputest_calloc_location fuel mem c mc evs blocks num size file line =
+  FOk (Null, mem, c, mc, evs, blocks).
+Proof. exact calloc_overflow_refused. Qed.
+Print Assumptions C15_calloc_overflow_refused.
+
+Theorem C15_calloc_spec :
+  forall (fuel : nat) (mem : memory) (c mc : Z) (evs : list hcev) (o : option (list N))
+  (bl : list (option (list N))) (num size : Z) (file : ptr) (line : Z),
+  c < I31 ->
+  0 <= num ->
+  0 <= size < M64 ->
+  num * size < M64 ->
+  wf_ans (num * size) o ->
+  src_c_cpputest_calloc_location fuel mem c mc evs (o :: bl) num size file line =
+  FOk
+  (t_ptr mem o, match o with
+  | Some _ => mem ++ [repeat 0%N (Z.to_nat (num * size))]
+  | None => mem
+  end, t_tick c, cw 32 true (mc + 1), (evs ++ t_tick_evs c) ++ [CMalloc (num * size) (t_ans o)],
+  bl).
+Proof. exact calloc_spec. Qed.
+Print Assumptions C15_calloc_spec.
+
+Theorem C15_calloc_zero :
+  forall (fuel : nat) (mem : memory) (c mc : Z) (evs : list hcev) (o : option (list N))
+  (bl : list (option (list N))) (num size : Z) (file : ptr) (line : Z),
+  c < I31 ->
+  0 <= num ->
+  0 <= size < M64 ->
+  num = 0 \/ size = 0 ->
+  wf_ans 0 o ->
+  src_c_cpputest_calloc_location fuel mem c mc evs (o :: bl) num size file line =
+  FOk
+  (t_ptr mem o, match o with
+  | Some _ => mem ++ [[]]
+  | None => mem
+  end, t_tick c, cw 32 true (mc + 1), (evs ++ t_tick_evs c) ++ [CMalloc 0 (t_ans o)], bl).
+Proof. exact calloc_zero. Qed.
+Print Assumptions C15_calloc_zero.
+
+Theorem C15_link_C15_c_tick :
+  forall s : cst,
+  c_tick s =
+  (let s1 := {| c_counter := t_tick (c_counter s); c_orig := c_orig s; c_cur := c_cur s |} in
+  if t_fires (c_counter s) then c_set_oom s1 else s1).
+Proof. exact link_C15_c_tick. Qed.
+Print Assumptions C15_link_C15_c_tick.
+
+Theorem C15_link_C05_calloc_guard :
+  forall num size : N,
+  negb (size =? 0)%N && ((C05_Model.W - 1) / size <? num)%N = t_calloc_overflows (Z.of_N num) (Z.of_N size).
+Proof. exact link_C05_calloc_guard. Qed.
+Print Assumptions C15_link_C05_calloc_guard.
